@@ -12,7 +12,10 @@ Oracle (implementation alone):
             a sample that ended in an existing category has a recorded `iCVI_match` call for that category
             that answered True, with candidate > current, and the *batch* index of the candidate labelling is
             strictly larger than that of the labelling before the step;
-        (d) the same for `CVIART.CVI_match` with all three indices (`<` for Davies-Bouldin).
+        (d) the same for `CVIART.CVI_match` with all three indices (`<` for Davies-Bouldin); the index of the clause is
+            the one the estimator reports (`get_params()["validity"]`) when fit is called;
+        (d') the same on estimators whose validity index was changed after construction (attribute assignment,
+            `set_params`, twice, there and back, same value, on a deep copy, after an earlier fit).
 """
 from __future__ import annotations
 
@@ -25,7 +28,7 @@ from ..common import run_driver, vec_q, mat_q, nats
 from ..impl import quiet, exc_enum, MODES, iCVIFuzzyART, CVIART, FuzzyART
 
 RULE = ("cases = (a) one op sequence (dimension, ops with vectors and labels) on iCVI_CH, (c) one iCVIFuzzyART fit "
-        "(params, mode, data, match-tracking mode), (d) one CVIART fit (index, params, data, mode), (e) one labelled "
+        "(params, mode, data, match-tracking mode), (d) one CVIART fit (index, params, data, mode; (d') also the configuration history of the index), (e) one labelled "
         "data set; non-trivial when >= 2 clusters were present at some point and, for fits, >= 1 gate call was made; "
         "distinct by hash of the full input")
 
@@ -415,7 +418,7 @@ def check_icvi_fuzzy(ctx):
             _, _, _, old, new, lab_before, wg = mine[-1]
             if not (new > old):
                 ctx.issue("violation", "iCVIFuzzyART.iCVI_match:True without new > old",
-                          f"sample {idx} (epoch {sidx // n}) -> {c}: index of the labelling before the step {old!r}, after {new!r}", dict(rep, sample=idx, epoch=sidx // n))
+                          f"sample {idx} -> {c}: tracked index of the labelling before the step {old!r}, after {new!r}", dict(rep, sample=idx))
                 continue
             # the statement on the index itself (batch values of the two labellings)
             if offline:
@@ -499,6 +502,155 @@ def check_icvi_fuzzy(ctx):
 VI_NAMES = {1: "calinski_harabasz", 2: "davies_bouldin", 3: "silhouette"}
 
 
+def _blob_rows(r, n: int, d: int) -> np.ndarray:
+    """noisy readings around a few centres, clipped to [0,1] (floats, not on the grid): the three indices disagree on
+    border samples of such data far more often than on the coarse grid rows"""
+    k = r.randint(2, 4)
+    cs = [[r.random() for _ in range(d)] for _ in range(k)]
+    sd = r.choice([0.04, 0.08, 0.12])
+    rows = []
+    for _ in range(n):
+        c = r.choice(cs)
+        rows.append([min(1.0, max(0.0, c[j] + r.gauss(0.0, sd))) for j in range(d)])
+    return np.array(rows, dtype=float).reshape(n, d)
+
+
+def _cviart_gate_run(ctx, funcs, m, X, mode, eps, epochs, rep, key, changed):
+    """One observed `CVIART.fit` of the already configured estimator `m`.  The index of the gate clause is the one the
+    ESTIMATOR REPORTS (`get_params()["validity"]`) when fit is called — not whatever value travels inside fit —: every
+    join of an existing category must make the batch value of THAT index strictly better than before the step."""
+    cov = ctx.cov
+    n = len(X)
+    try:
+        with quiet():
+            reported = m.get_params()["validity"]
+    except Exception as e:
+        ctx.issue("violation", f"CVIART.get_params:{exc_enum(e)}", f"get_params raised {e!r}", rep)
+        return None
+    if reported not in funcs:
+        ctx.issue("violation", "CVIART.get_params:validity is not one of the three indices",
+                  f"get_params()['validity'] = {reported!r}", rep)
+        return None
+    vname = VI_NAMES[reported]
+    rep = dict(rep, reported_validity=vname)
+    f = funcs[reported]
+    calls = []
+    steps = []
+    orig_match = m.CVI_match
+    base = m.base_module
+    orig_step = base.step_fit
+
+    def wrapped_match(x, w, c_, params, extra, cache, _m=m, _o=orig_match):
+        idx = int(extra["index"])
+        nW = len(_m.W)
+        old = new = None
+        ans = _o(x, w, c_, params, extra, cache)
+        if nW >= 2 and ans:
+            # (the gate call does not touch labels_: the labelling before the step is still in place; only the calls
+            #  that allowed the join are evaluated, a vetoed candidate is never looked at again)
+            lab = np.array(_m.labels_).copy()
+            try:
+                old = float(f(_m.data, lab))
+                lab2 = lab.copy()
+                lab2[idx] = c_
+                new = float(f(_m.data, lab2))
+            except Exception:
+                old = new = None
+        calls.append((idx, int(c_), bool(ans), nW, old, new))
+        return ans
+
+    def wrapped_step(x, *a, _b=base, _o=orig_step, **kw):
+        nc = len(_b.W)
+        k0 = len(calls)
+        c = _o(x, *a, **kw)
+        steps.append((nc, int(c), calls[k0:]))
+        return c
+
+    object.__setattr__(m, "CVI_match", wrapped_match)
+    object.__setattr__(base, "step_fit", wrapped_step)
+    try:
+        with quiet():
+            m.fit(X, max_iter=epochs, match_tracking=mode, epsilon=eps)
+    except Exception as e:
+        if epochs > 1 and isinstance(e, ValueError) and "Number of labels is" in str(e):
+            # a later epoch met a labelling on which the batch index is undefined (every sample its own cluster,
+            # or one cluster only): sklearn raises.  That is a totality defect (C04, finding F35); C15's gate
+            # clause cannot be evaluated on this run
+            cov.hit("cviart:later-epoch-undefined-index-raises(C04-F35)")
+            cov.case(key, False)
+            return None
+        ctx.issue("violation", f"CVIART.fit:{exc_enum(e)}:{vname}",
+                  f"fit raised {e!r} on validated data (mode {mode})", rep)
+        cov.case(key, False)
+        return None
+    finally:
+        m.__dict__.pop("CVI_match", None)
+        base.__dict__.pop("step_fit", None)
+    cov.hit(f"cviart:{vname}")
+    with quiet():
+        still = m.get_params()["validity"]
+    if still != reported:
+        ctx.issue("violation", "CVIART.fit:changes the validity index the estimator reports",
+                  f"get_params()['validity'] was {reported!r} before fit and is {still!r} after", rep)
+    labels = [int(t) for t in m.labels_]
+    for sidx, (nc, c, during) in enumerate(steps):
+        idx = sidx % n
+        if sidx >= n:
+            cov.hit("cvi-gate:later-epoch")
+        if c >= nc:
+            cov.hit("cvi-gate:new-category")
+            continue
+        cov.hit("cvi-gate:joined-existing")
+        mine = [t for t in during if t[0] == idx and t[1] == c]
+        if not mine or not mine[-1][2]:
+            ctx.issue("violation", "CVIART.fit:joined existing category without a True CVI_match",
+                      f"sample {idx} (epoch {sidx // n}) -> category {c} (of {nc}); calls {[(t[1], t[2]) for t in during]}",
+                      dict(rep, sample=idx))
+            continue
+        _, _, _, nW, old, new = mine[-1]
+        if nW < 2:
+            cov.hit("cvi-gate:len(W)<2")
+            continue
+        if changed:
+            cov.hit("cvi-gate:joined-existing:index-changed-after-construction")
+        better = old is not None and ((new < old) if reported == 2 else (new > old))
+        if not better:
+            if changed:
+                sig = f"CVIART.fit:validity changed after construction:join without a strictly better reported index:{vname}"
+            else:
+                sig = f"CVIART.CVI_match:True without a strictly better index:{vname}"
+            ctx.issue("violation", sig,
+                      f"the estimator reports validity={vname}; sample {idx} (epoch {sidx // n}) joined the existing category "
+                      f"{c}: {vname} of the labelling before the step {old!r}, after {new!r}"
+                      + (f" (configuration history: {rep.get('configured')})" if changed else ""),
+                      dict(rep, sample=idx, epoch=sidx // n))
+            if changed:
+                break   # one report per reconfigured run: the following joins of the run repeat it
+    for t in calls:
+        cov.hit("cvi-gate:allowed" if t[2] else "cvi-gate:vetoed")
+    cov.case(key, len(set(labels)) >= 2 and len(calls) > 0)
+    cov.traces += 1
+    return labels
+
+
+def _cviart_inputs(r, i, nmax, blobs=False):
+    d = r.randint(1, 3)
+    n = r.randint(2, nmax)
+    mode = MODES[(i // 3) % 5]
+    eps = r.choice([0.0, 2.0 ** -20])
+    if blobs:
+        X = gen.cc(_blob_rows(r, n, d))
+    else:
+        X = gen.cc(gen.grid_rows(r, n, d))
+    p = gen.fuzzy_params(r)
+    if r.random() < 0.4:
+        p["rho"] = r.choice([0.0, 0.25, 0.5])
+    if p["rho"] == 0.0 and p["alpha"] == 0.0:
+        p["alpha"] = 2.0 ** -10
+    epochs = r.choice([1, 1, 2, 3])
+    return d, n, mode, eps, X, p, epochs
+
+
 def check_cviart(ctx):
     cov = ctx.cov
     M = _sk()
@@ -508,17 +660,7 @@ def check_cviart(ctx):
     for i in range(N):
         r = gen.rng_for(ctx.seed, "C15-cviart", i)
         validity = 1 + (i % 3)
-        d = r.randint(1, 3)
-        n = r.randint(2, nmax)
-        mode = MODES[(i // 3) % 5]
-        eps = r.choice([0.0, 2.0 ** -20])
-        X = gen.cc(gen.grid_rows(r, n, d))
-        p = gen.fuzzy_params(r)
-        if r.random() < 0.4:
-            p["rho"] = r.choice([0.0, 0.25, 0.5])
-        if p["rho"] == 0.0 and p["alpha"] == 0.0:
-            p["alpha"] = 2.0 ** -10
-        epochs = r.choice([1, 1, 2, 3])
+        d, n, mode, eps, X, p, epochs = _cviart_inputs(r, i, nmax)
         key = ("cviart", validity, p, mode, eps, X.tolist(), epochs)
         rep = {"validity": VI_NAMES[validity], "params": p, "mode": mode, "eps": eps, "X": X, "max_iter": epochs}
         try:
@@ -527,87 +669,111 @@ def check_cviart(ctx):
         except Exception as e:
             ctx.issue("violation", f"CVIART.__init__:{exc_enum(e)}", f"constructor raised {e!r}", rep)
             continue
-        calls = []
-        steps = []
-        orig_match = m.CVI_match
-        base = m.base_module
-        orig_step = base.step_fit
-        cur_index = [None]
+        labels = _cviart_gate_run(ctx, funcs, m, X, mode, eps, epochs, rep, key, changed=False)
+        if labels is not None and i < 3:
+            cov.sample({"CVIART": VI_NAMES[validity], "params": p, "mode": mode, "n": n, "labels": labels})
 
-        def wrapped_match(x, w, c_, params, extra, cache, _m=m, _o=orig_match):
-            idx = int(extra["index"])
-            nW = len(_m.W)
-            old = new = None
-            if nW >= 2:
-                f = funcs[extra["validity"]]
-                lab = np.array(_m.labels_).copy()
-                try:
-                    old = float(f(_m.data, lab))
-                    lab2 = lab.copy()
-                    lab2[idx] = c_
-                    new = float(f(_m.data, lab2))
-                except Exception:
-                    old = new = None
-            ans = _o(x, w, c_, params, extra, cache)
-            calls.append((idx, int(c_), bool(ans), nW, old, new))
-            cur_index[0] = idx
-            return ans
 
-        def wrapped_step(x, *a, _b=base, _o=orig_step, **kw):
-            nc = len(_b.W)
-            cur_index[0] = None
-            k0 = len(calls)
-            c = _o(x, *a, **kw)
-            steps.append((nc, int(c), calls[k0:]))
-            return c
+RECONF_HOWS = ["attribute", "set_params", "attribute", "set_params", "twice", "there-and-back", "same-value",
+               "after-a-first-fit", "set_params-with-base-params", "deepcopy-then-attribute"]
 
-        object.__setattr__(m, "CVI_match", wrapped_match)
-        object.__setattr__(base, "step_fit", wrapped_step)
+
+def check_cviart_reconfigured(ctx):
+    """(d') the validity index is an ordinary hyper-parameter of the estimator (`params["validity"]`, reported by
+    `get_params()`); it can be changed after construction — attribute assignment, `set_params`, several times, back to
+    the first value, on a deep copy, after an earlier fit.  Whatever the history, the joins of the next fit are gated by the
+    index the estimator reports at that moment."""
+    cov = ctx.cov
+    M = _sk()
+    funcs = {1: M.calinski_harabasz_score, 2: M.davies_bouldin_score, 3: M.silhouette_score}
+    N = ctx.scale(60, 400)
+    nmax = ctx.scale(18, 26)
+    for i in range(N):
+        r = gen.rng_for(ctx.seed, "C15-cviart-reconf", i)
+        how = RECONF_HOWS[i % len(RECONF_HOWS)]
+        v0 = 1 + (i // len(RECONF_HOWS) + i) % 3
+        others = [v for v in (1, 2, 3) if v != v0]
+        v1 = r.choice(others)
+        v2 = r.choice([v for v in (1, 2, 3) if v != v1])
+        d, n, mode, eps, X, p, epochs = _cviart_inputs(r, i, nmax, blobs=(r.random() < 0.6))
+        if r.random() < 0.5:
+            p["rho"] = r.choice([0.0, 0.25, 0.5])   # low vigilance: the index decides, not the base module
+            if p["rho"] == 0.0 and p["alpha"] == 0.0:
+                p["alpha"] = 2.0 ** -10
+        history = [f"CVIART(FuzzyART, {VI_NAMES[v0]})"]
+        rep = {"constructed_with": VI_NAMES[v0], "how": how, "params": p, "mode": mode, "eps": eps, "X": X,
+               "max_iter": epochs}
         try:
             with quiet():
-                m.fit(X, max_iter=epochs, match_tracking=mode, epsilon=eps)
+                m = CVIART(FuzzyART(p["rho"], p["alpha"], p["beta"]), v0)
+                final = v0
+                if how == "attribute":
+                    m.validity = v1
+                    final = v1
+                    history.append(f"m.validity = {VI_NAMES[v1]}")
+                elif how == "set_params":
+                    m.set_params(validity=v1)
+                    final = v1
+                    history.append(f"m.set_params(validity={VI_NAMES[v1]})")
+                elif how == "twice":
+                    m.validity = v1
+                    m.set_params(validity=v2)
+                    final = v2
+                    history += [f"m.validity = {VI_NAMES[v1]}", f"m.set_params(validity={VI_NAMES[v2]})"]
+                elif how == "there-and-back":
+                    m.set_params(validity=v1)
+                    m.validity = v0
+                    final = v0
+                    history += [f"m.set_params(validity={VI_NAMES[v1]})", f"m.validity = {VI_NAMES[v0]}"]
+                elif how == "same-value":
+                    if r.random() < 0.5:
+                        m.validity = v0
+                    else:
+                        m.set_params(validity=v0)
+                    final = v0
+                    history.append(f"validity set again to {VI_NAMES[v0]}")
+                elif how == "after-a-first-fit":
+                    try:
+                        m.fit(X, max_iter=1, match_tracking=mode, epsilon=eps)
+                        history.append("m.fit(X)")
+                    except Exception:
+                        history.append("m.fit(X) raised")
+                    if r.random() < 0.5:
+                        m.validity = v1
+                        history.append(f"m.validity = {VI_NAMES[v1]}")
+                    else:
+                        m.set_params(validity=v1)
+                        history.append(f"m.set_params(validity={VI_NAMES[v1]})")
+                    final = v1
+                elif how == "set_params-with-base-params":
+                    m.set_params(validity=v1, rho=p["rho"], beta=p["beta"])
+                    final = v1
+                    history.append(f"m.set_params(validity={VI_NAMES[v1]}, rho=, beta=)")
+                elif how == "deepcopy-then-attribute":
+                    import copy
+                    m = copy.deepcopy(m)
+                    history.append("m = deepcopy(m)")
+                    m.validity = v1
+                    final = v1
+                    history.append(f"m.validity = {VI_NAMES[v1]}")
         except Exception as e:
-            if epochs > 1 and isinstance(e, ValueError) and "Number of labels is" in str(e):
-                # a later epoch met a labelling on which the batch index is undefined (every sample its own cluster,
-                # or one cluster only): sklearn raises.  That is a totality defect (C04, finding F35); C15's gate
-                # clause cannot be evaluated on this run
-                cov.hit("cviart:later-epoch-undefined-index-raises(C04-F35)")
-                cov.case(key, False)
-                continue
-            ctx.issue("violation", f"CVIART.fit:{exc_enum(e)}:{VI_NAMES[validity]}",
-                      f"fit raised {e!r} on validated data (mode {mode})", rep)
-            cov.case(key, False)
+            ctx.issue("violation", f"CVIART:{exc_enum(e)}:changing validity after construction ({how})",
+                      f"{'; '.join(history)} then {e!r}", rep)
             continue
-        cov.hit(f"cviart:{VI_NAMES[validity]}")
-        labels = [int(t) for t in m.labels_]
-        for sidx, (nc, c, during) in enumerate(steps):
-            idx = sidx % n
-            if sidx >= n:
-                cov.hit("cvi-gate:later-epoch")
-            if c >= nc:
-                cov.hit("cvi-gate:new-category")
-                continue
-            cov.hit("cvi-gate:joined-existing")
-            mine = [t for t in during if t[0] == idx and t[1] == c]
-            if not mine or not mine[-1][2]:
-                ctx.issue("violation", "CVIART.fit:joined existing category without a True CVI_match",
-                          f"sample {idx} (epoch {sidx // n}) -> category {c} (of {nc}); calls {[(t[1], t[2]) for t in during]}",
-                          dict(rep, sample=idx))
-                continue
-            _, _, _, nW, old, new = mine[-1]
-            if nW < 2:
-                cov.hit("cvi-gate:len(W)<2")
-                continue
-            better = (new < old) if validity == 2 else (new > old)
-            if old is None or not better:
-                ctx.issue("violation", f"CVIART.CVI_match:True without a strictly better index:{VI_NAMES[validity]}",
-                          f"sample {idx} (epoch {sidx // n}) -> {c}: index of the labelling before the step {old!r}, after {new!r}", dict(rep, sample=idx, epoch=sidx // n))
-        for t in calls:
-            cov.hit("cvi-gate:allowed" if t[2] else "cvi-gate:vetoed")
-        cov.case(key, len(set(labels)) >= 2 and len(calls) > 0)
-        cov.traces += 1
-        if i < 3:
-            cov.sample({"CVIART": VI_NAMES[validity], "params": p, "mode": mode, "n": n, "labels": labels})
+        rep["configured"] = "; ".join(history)
+        cov.hit(f"cviart-reconf:{how}")
+        with quiet():
+            rp = m.get_params()["validity"]
+        if rp != final:
+            # the hyper-parameter did not take the assigned value: the estimator no longer says which index it uses
+            ctx.issue("violation", f"CVIART.get_params:validity not the last value assigned ({how})",
+                      f"{rep['configured']}: get_params()['validity'] = {rp!r}, last assigned {final!r}", rep)
+            continue
+        cov.hit(f"cviart-reconf:{VI_NAMES[v0]}->{VI_NAMES[final]}")
+        key = ("cviart-reconf", how, v0, v1, v2, p, mode, eps, X.tolist(), epochs)
+        labels = _cviart_gate_run(ctx, funcs, m, X, mode, eps, epochs, rep, key, changed=True)
+        if labels is not None and i < 2:
+            cov.sample({"CVIART": rep["configured"], "params": p, "mode": mode, "n": n, "labels": labels})
 
 
 
@@ -627,3 +793,4 @@ def run(ctx):
     check_batch(ctx)
     check_icvi_fuzzy(ctx)
     check_cviart(ctx)
+    check_cviart_reconfigured(ctx)
